@@ -8,7 +8,9 @@
 namespace PyIpmi.Session.Shape
 
 /-- `Rmcp.establish_session`, statement by statement.  What `Session.establish` (Model/Session.lean) mirrors:
-no session object while the first three messages go out (`self._session = None` … `self._session = session`
+FIRST the keep-alive of an earlier session is stopped (and joined) and its stopper forgotten
+(`KeepAlive.enter`, `stopFirst`), and the caller's Session object is cleared — `activated`, `sid`,
+`sequence_number` (`resetSess`, `Cfg.resetSession`) — before anything is sent; then: no session object while the first three messages go out (`self._session = None` … `self._session = session`
 only after the challenge), the order ping → Get Channel Authentication Capabilities → Get Session Challenge →
 Activate Session → Set Session Privilege Level, the authentication type chosen from the capabilities BEFORE
 the challenge is requested and NotSupportedError raised right there when there is none (`Cfg.noAuthRaises`: the
@@ -16,7 +18,14 @@ BMC offers no type, nothing is asked for), the TEMPORARY id stored before activa
 sequence number and `activated = True` stored after it and before Set Session Privilege Level, keep-alive
 installed last with `_get_device_id`. -/
 def establishSession : List String :=
-  ["set:self._session=None",
+  ["if:self._stop_keep_alive",
+   "call:_stop_keep_alive",
+   "set:self._stop_keep_alive=None",
+   "end",
+   "set:self._session=None",
+   "set:session.activated=False",
+   "set:session.sid=0",
+   "set:session.sequence_number=0",
    "set:self.host=session._rmcp_host",
    "set:self.port=session._rmcp_port",
    "call:ping",
